@@ -688,6 +688,8 @@ impl<'a> P<'a> {
         };
         let mut has_init = false;
         let mut init = Value::Object(Map::new());
+        // a flat object literal `{ key: "text", ... }` read syntactically (keys: identifiers or strings; values: string literals)
+        let mut obj = json!({"ok": false, "props": [], "asConst": false});
         if self.eat_p("=") {
             has_init = true;
             let first = self.pos;
@@ -740,14 +742,56 @@ impl<'a> P<'a> {
                     json!({"k": "rawinit", "tokens": tokens})
                 }
             };
+            obj = self.flat_object_literal(first, last);
             if self.is_id(0, "as") {
+                if self.is_id(1, "const") && self.is_p(2, ";") {
+                    obj["asConst"] = json!(true);
+                }
                 // `as unknown as T2` / `as const`: skipped
                 self.scan_balanced(&[";"], false)?;
             }
         }
         self.expect_p(";")?;
         Ok(json!({"k": "const", "export": export, "declare": declare, "name": name, "t": t,
-                  "hasInit": has_init, "init": init, "line": line, "col": col}))
+                  "hasInit": has_init, "init": init, "obj": obj, "line": line, "col": col}))
+    }
+
+    fn flat_object_literal(&self, first: usize, last: usize) -> Value {
+        let no = json!({"ok": false, "props": [], "asConst": false});
+        let toks = match self.toks.get(first..last) {
+            Some(t) if t.len() >= 2 => t,
+            _ => return no,
+        };
+        let is_p = |t: &Tok, s: &str| t.kind == TK::Punct && t.text == s;
+        if !is_p(&toks[0], "{") || !is_p(&toks[toks.len() - 1], "}") {
+            return no;
+        }
+        let body = &toks[1..toks.len() - 1];
+        let mut props = Vec::new();
+        let mut i = 0;
+        while i < body.len() {
+            if i + 2 >= body.len() {
+                return no;
+            }
+            let (k, c, v) = (&body[i], &body[i + 1], &body[i + 2]);
+            let key = match k.kind {
+                TK::Ident => k.text.clone(),
+                TK::Str => k.val.clone(),
+                _ => return no,
+            };
+            if !is_p(c, ":") || v.kind != TK::Str {
+                return no;
+            }
+            props.push(json!({"key": key, "keyQuoted": k.kind == TK::Str, "val": v.val.clone()}));
+            i += 3;
+            if i < body.len() {
+                if !is_p(&body[i], ",") {
+                    return no;
+                }
+                i += 1;
+            }
+        }
+        json!({"ok": true, "props": props, "asConst": false})
     }
 
     /// Collects token texts up to (not including) a punctuation in `terms` at bracket depth 0.
